@@ -151,7 +151,7 @@ def run(ctx, model=None):
         check_case(ctx, gen.with_odd_labels(gen.stopping_game(rng), rng)[0], model)
         check_case(ctx, gen.with_odd_labels(gen.layered_tie_game(rng), rng)[0], model)
     _envg = [gen.decimal_tie_game(rng, k_) for k_ in (P1, P2, P1, P2)] + [tie_game(rng) for _ in range(3)] + \
-        [gen.stopping_game(rng) for _ in range(3 if ctx.quick() else 40)]
+        [gen.stopping_game(rng) for _ in range(3 if ctx.quick() else 40)] + [gen.all_dead_game(rng)]
     _an0.environment_independence(ctx, _envg, "strategies-independent-of-process-environment", fields=[1, 3])
     _an0.described_at_solve_time(ctx, [gen.stopping_game(rng, extra_finals=0.25) for _ in range(6 if ctx.quick() else 80)] +
                                  [gen.multi_final_game(rng) for _ in range(3 if ctx.quick() else 30)],
